@@ -102,6 +102,7 @@ def build_harness(variant="std"):
         return exe
     os.makedirs(out_dir, exist_ok=True)
     _prune_builds(out_dir)
+    _gen_engine_table(out_dir, h_files)
     replaced = VARIANT_REPLACED.get(variant, set())
     srcs = [os.path.join(REPO, "src", s) for s in LIB_SOURCES if s not in replaced]
     srcs += [f for f in h_files if f.endswith(".c") and _in_variant(f, variant)]
@@ -110,7 +111,7 @@ def build_harness(variant="std"):
         o = os.path.join(out_dir, variant + "_" + os.path.basename(os.path.dirname(s)) + "_" +
                          os.path.basename(s)[:-2] + ".o")
         cmd = ["clang-14", "-c", s, "-o", o, "-I" + REPO, "-I" + os.path.join(REPO, "src"),
-               "-I" + os.path.join(VERIF, "harness")] + CFLAGS + defs
+               "-I" + os.path.join(VERIF, "harness"), "-I" + out_dir] + CFLAGS + defs
         jobs.append((cmd, o))
     logs = []
 
@@ -140,6 +141,22 @@ def build_harness(variant="std"):
     return exe
 
 
+def _gen_engine_table(out_dir, h_files):
+    """hdrv_engines.h: one entry per `int eng_<name>(FILE *in, FILE *out)` found in harness/eng_*.c"""
+    names = []
+    for f in sorted(h_files):
+        if os.path.basename(f).startswith("eng_") and f.endswith(".c"):
+            with open(f) as fh:
+                for m in re.finditer(r"^int\s+eng_(\w+)\s*\(\s*FILE", fh.read(), re.M):
+                    names.append(m.group(1))
+    text = "/* GENERATED by check/build.py */\n"
+    text += "".join("int eng_%s(FILE *in, FILE *out);\n" % n for n in names)
+    text += "static const struct { const char *name; engine_fn fn; } engines[] = {\n"
+    text += "".join('    {"%s", eng_%s},\n' % (n, n) for n in names)
+    text += "};\n"
+    _write_if_changed(os.path.join(out_dir, "hdrv_engines.h"), text)
+
+
 # harness files named eng_*.c / hcommon.c / hdrv.c belong to "std"; files named <variant>_*.c to
 # that variant only.
 VARIANT_REPLACED = {"std": {"scram.c"}}  # compiled via harness/wrap_scram.c
@@ -159,6 +176,7 @@ def run_extract():
     import importlib
     import extract as ex
     importlib.reload(ex)
+    ex._collect_plugins()
     errs = []
     for g in ex.GENERATORS:
         try:
@@ -168,8 +186,70 @@ def run_extract():
     return errs, ex.all_fingerprints()
 
 
+def _write_if_changed(path, text):
+    try:
+        with open(path) as f:
+            if f.read() == text:
+                return
+    except OSError:
+        pass
+    with open(path, "w") as f:
+        f.write(text)
+
+
+def gen_lean_roots():
+    """Regenerate lean/Driver.lean (engine dispatch) and lean/Strophe.lean (library root) from the
+    files present, so that adding an engine or a module needs no edit of a shared file.
+    Convention: Strophe/Drv/<Name>.lean defines either `def run (i o : IO.FS.Stream) : IO Unit`
+    or a stateless `def step (line : String) : String` in namespace Strophe.Drv.<Name>; the engine
+    name is <Name> in lower case."""
+    drv_dir = os.path.join(LEAN, "Strophe", "Drv")
+    engines = []
+    for f in sorted(os.listdir(drv_dir)):
+        if not f.endswith(".lean") or f == "Common.lean":
+            continue
+        name = f[:-5]
+        with open(os.path.join(drv_dir, f), encoding="utf-8") as fh:
+            text = fh.read()
+        kind = "run" if re.search(r"^(partial\s+)?def\s+run\b", text, re.M) else "step"
+        engines.append((name, kind))
+    lines = ["-- GENERATED by check/build.py (gen_lean_roots) — do not edit.",
+             "import Strophe.Drv.Common"]
+    lines += ["import Strophe.Drv.%s" % n for n, _ in engines]
+    lines += ["", "open Strophe", "",
+              "def engines : List (String × (IO.FS.Stream → IO.FS.Stream → IO Unit)) := ["]
+    ents = []
+    for n, kind in engines:
+        if kind == "run":
+            ents.append('  ("%s", Drv.%s.run)' % (n.lower(), n))
+        else:
+            ents.append('  ("%s", Drv.runStateless Drv.%s.step)' % (n.lower(), n))
+    lines.append(",\n".join(ents) + "]")
+    lines += ["",
+              "def main (args : List String) : IO UInt32 := do",
+              "  let stdin ← IO.getStdin",
+              "  let stdout ← IO.getStdout",
+              "  match args with",
+              "  | [eng] =>",
+              "    match engines.lookup eng with",
+              "    | some f => f stdin stdout; return 0",
+              '    | none => IO.eprintln s!"unknown engine {eng}"; return 2',
+              '  | _ => IO.eprintln "usage: drv <engine>"; return 2', ""]
+    _write_if_changed(os.path.join(LEAN, "Driver.lean"), "\n".join(lines))
+    mods = []
+    for root, _, files in os.walk(os.path.join(LEAN, "Strophe")):
+        for f in files:
+            if f.endswith(".lean"):
+                rel = os.path.relpath(os.path.join(root, f), LEAN)[:-5]
+                mods.append(rel.replace(os.sep, "."))
+    _write_if_changed(os.path.join(LEAN, "Strophe.lean"),
+                      "-- GENERATED by check/build.py (gen_lean_roots) — do not edit.\n" +
+                      "".join("import %s\n" % m for m in sorted(mods)))
+
+
 def lake_build(targets):
     """Returns (ok, seconds, log)."""
+    gen_lean_roots()
     t0 = time.time()
     p = subprocess.run(["lake", "build"] + targets, cwd=LEAN, capture_output=True, text=True)
     return p.returncode == 0, time.time() - t0, p.stdout + p.stderr
